@@ -320,8 +320,12 @@ impl Cw1Scen {
         for _ in 0..10_000 {
             match f(cursor.clone(), limit) {
                 Some(p) if !p.is_empty() => {
-                    cursor = Some(p.last().unwrap().split(':').next().unwrap().to_string());
+                    let next = Some(p.last().unwrap().split(':').next().unwrap().to_string());
                     out.extend(p);
+                    if next == cursor {
+                        break; // no progress (a defect in the code under test): do not walk forever
+                    }
+                    cursor = next;
                 }
                 _ => break,
             }
